@@ -74,6 +74,15 @@ def run(idx, rep, tier):
     r3(idx, rep)
     r4(idx, rep)
     r5(idx, rep)
+    # the table above runs on the checker's own small values, for which `is` and `==` coincide; the analysed code must not depend on that
+    n = 0
+    for cls in ("Equality", "Qualified", "Variable", "Matchable"):
+        for nm, fm in idx.cls(cls).methods.items():
+            n += 1
+            for c in K.identity_compares(fm):
+                rep.fail("R1", f"{fm.file}::{fm.qual} identity comparison `{unparse(c)}`", "values read from a file are compared by identity: two equal strings such as 'true' are "
+                         "different objects, so onchange/latch would see a change on every line", K.where(fm, c))
+    rep.check(n > 20, "R1", "csvpath/matching/productions::value comparisons use == / !=", f"{n} methods scanned", "csvpath/matching/productions")
     rep.stats["exhaustive"] = True
 
 
@@ -216,10 +225,20 @@ def r2(idx, rep):
                 break
         if pr is None:
             raise AnalysisError(f"qualifier property {prop} not found on Variable")
-        src = unparse(pr.node)
-        okp = f"Qualities.{member}.value in self.qualifiers" in src
-        rep.check(okp and qvals.get(member) == prop, "R2", f"{pr.file}::{pr.qual} reads Qualities.{member}",
-                  f"property {prop} does not test its own qualifier (Qualities.{member}={qvals.get(member)!r})", K.where(pr, pr.node))
+        # the accessor answers "is my own qualifier present", whatever else is present: all sets of <= 2 qualifiers (and none)
+        consts = {f"Qualities.{m}.value": v for m, v in qvals.items()}
+        allq = sorted(qvals.values())
+        sets = [None, []] + [[q] for q in allq] + [[a, b] for a in allq for b in allq if a != b]
+        bad = None
+        for S in sets:
+            st = dict(consts)
+            st["self.qualifiers"] = None if S is None else list(S)
+            ps = Interp(idx, types={"self": "Variable"}, unknown_calls="residual").run_all(pr, store=st)
+            want = bool(S) and prop in S
+            if len(ps) != 1 or ps[0].result[0] != "return" or bool(ps[0].result[1]) is not want or isinstance(ps[0].result[1], Residual):
+                bad = bad or f"qualifiers {S}: .{prop} is {[p.result for p in ps][:2]}, documented {want} (each qualifier is independent of the others)"
+        rep.check(bad is None and qvals.get(member) == prop, "R2", f"{pr.file}::{pr.qual} reads Qualities.{member}",
+                  bad or f"Qualities.{member}={qvals.get(member)!r}", K.where(pr, pr.node))
 
 
 def r3(idx, rep):
